@@ -108,6 +108,7 @@ class VOptional(V):
     def __init__(self, isnone, val, inner):
         self.isnone = isnone
         self.val = val
+        self.inner = inner
         self.ty = TOptional(inner)
 
 
@@ -121,11 +122,16 @@ class VDict(V):
     """dict[int, elem]: insertion-ordered key list + total map; the domain is the set
     of elements of the key list (keys pairwise distinct: an invariant of the type)."""
 
-    def __init__(self, keys, val, et):
-        self.keys = keys  # LInt term
-        self.val = val  # Array Int -> elem sort
+    def __init__(self, keys, val, et, kt=None):
+        self.keys = keys  # list-of-keys term
+        self.val = val  # Array key -> elem sort
         self.et = et
-        self.ty = TDict(et)
+        self.kt = kt if kt is not None else TInt
+        self.KL = self.kt.list_theory()
+        self.ty = TDict(et, self.kt)
+
+    def keylist(self):
+        return VList(self.keys, self.kt)
 
 
 class VRef(V):
@@ -288,12 +294,37 @@ class TFalseOr(T):
         return VFalseOr(st.fresh_const(name + "!isfalse", L.Bool), self.inner.fresh(name + "!val", st), self.inner)
 
 
+_OptInt = z3.Datatype("OptInt")
+_OptInt.declare("none")
+_OptInt.declare("some", ("val", L.Int))
+OptInt = _OptInt.create()
+
+
 class TOptional(T):
     def __init__(self, inner):
         self.inner = inner
 
     def fresh(self, name, st):
         return VOptional(st.fresh_const(name + "!isnone", L.Bool), self.inner.fresh(name + "!val", st), self.inner)
+
+    def sort(self):
+        if self.inner is TInt:
+            return OptInt
+        raise Unsupported("Optional of this type has no term representation")
+
+    def wrap(self, t):
+        return VOptional(OptInt.is_none(t), VInt(OptInt.val(t)), self.inner)
+
+
+def opt_term(v):
+    """term of sort OptInt for an Optional[int] / int / None value"""
+    if isinstance(v, VOptional) and v.inner is TInt:
+        return z3.If(v.isnone, OptInt.none, OptInt.some(v.val.t))
+    if isinstance(v, VInt):
+        return OptInt.some(v.t)
+    if isinstance(v, VNone):
+        return OptInt.none
+    raise Unsupported(f"cannot store {v.ty} as Optional[int]")
 
 
 class TTuple(T):
@@ -305,25 +336,28 @@ class TTuple(T):
 
 
 class TDict(T):
-    def __init__(self, et):
+    def __init__(self, et, kt=None):
         self.et = et
+        self.kt = kt if kt is not None else TInt
 
     def fresh(self, name, st):
-        keys = st.fresh_const(name + "!keys", L.LInt.sort)
-        val = st.fresh_const(name + "!val", z3.ArraySort(L.Int, self.et.sort()))
-        d = VDict(keys, val, self.et)
-        st.assume(distinct_keys(keys))
+        KL = self.kt.list_theory()
+        keys = st.fresh_const(name + "!keys", KL.sort)
+        val = st.fresh_const(name + "!val", z3.ArraySort(self.kt.sort(), self.et.sort()))
+        d = VDict(keys, val, self.et, self.kt)
+        st.assume(distinct_keys(keys, KL))
         return d
 
 
-def distinct_keys(keys):
+def distinct_keys(keys, KL=None):
+    KL = KL or L.LInt
     i, j = z3.Ints("_dk_i _dk_j")
     return L.Forall(
         [i, j],
-        [L.LInt.at(keys, i), L.LInt.at(keys, j)],
+        [KL.at(keys, i), KL.at(keys, j)],
         z3.Implies(
-            z3.And(0 <= i, i < j, j < L.LInt.len(keys)),
-            L.LInt.at(keys, i) != L.LInt.at(keys, j),
+            z3.And(0 <= i, i < j, j < KL.len(keys)),
+            KL.at(keys, i) != KL.at(keys, j),
         ),
         "dict.keys.distinct",
     )
